@@ -884,6 +884,15 @@ def int_mm(E, a, b, node=None):
         raise_(E, "RuntimeError", "_int_mm expects int8 operands", node)
     if len(a.shape) != 2 or len(b.shape) != 2:
         raise_(E, "RuntimeError", "_int_mm expects 2D operands", node)
+    # A-TORCH-CAP (probed on the real library): classes of calls for which this build's kernel is NOT exact become preconditions
+    from . import cap
+    if a.device.type == "cpu":
+        cls = cap.int_mm_exact_classes()
+        b_is_view = b.imap is not None or b.strides is not None
+        if not cls.get((True, True), True) and b_is_view:
+            E.oblige("int_mm-exact-on-this-build: inner size 1 with a transposed second operand is miscomputed", zi(a.shape[1]) != 1, kind="torch-pre", node=node)
+        if not cls.get((True, False), True) and not b_is_view:
+            E.oblige("int_mm-exact-on-this-build: inner size 1 is miscomputed", zi(a.shape[1]) != 1, kind="torch-pre", node=node)
     return matmul(E, to_dtype(E, a, "int32"), to_dtype(E, b, "int32"), node)
 
 
